@@ -305,7 +305,7 @@ def g4_strip_matched(pkg: Package, funcs: Iterable[FuncInfo], col: Collector, cl
     off exactly len(P) / len(S) of the *same* P and S - not by splitext/split/replace, which disagree
     with the filter for compound or dotted affixes."""
     from sa.defuse import ReachingDefs
-    from sa.astutil import u
+    from sa.astutil import call_name, u
     n_sites = 0
     for ctx in funcs:
         tests = {}
@@ -408,3 +408,57 @@ def g16_stale_loop_vars(pkg: Package, funcs: Iterable[FuncInfo], col: Collector,
 def _loop_key(L) -> str:
     s = ast.unparse(L.iter if isinstance(L, ast.For) else L.test)
     return s if len(s) < 50 else s[:47] + "..."
+
+
+def init_copies_of_other_formals(ctx: FuncInfo):
+    """[(target attribute node, value node, source formals)] for every `self.<formal> = <value>` of a constructor; the third entry is
+    non-empty and lacks <formal> when the value is a bare copy of ANOTHER formal (also behind a validating `argcheck` call or a plain
+    local alias) - an attribute of a parameter object (`params.eos`) or a tensor sized by another formal is something else."""
+    from sa.defuse import ReachingDefs
+    from sa.astutil import call_name
+    if ctx.name != "__init__":
+        return []
+    formals = {p.name for p in ctx.params[1:]}
+    if len(formals) < 2:
+        return []
+    rd = ReachingDefs(ctx.node)
+    pairs, out = [], []
+    for n in own_nodes(ctx.node):
+        if isinstance(n, ast.Assign):
+            for t in n.targets:
+                if isinstance(t, ast.Tuple) and isinstance(n.value, ast.Tuple) and len(t.elts) == len(n.value.elts):
+                    pairs += list(zip(t.elts, n.value.elts))
+                else:
+                    pairs.append((t, n.value))
+        elif isinstance(n, ast.AnnAssign) and n.value is not None:
+            pairs.append((n.target, n.value))
+    for t, v in pairs:
+        if not (isinstance(t, ast.Attribute) and isinstance(t.value, ast.Name) and t.value.id == "self" and t.attr in formals):
+            continue
+        core = v
+        if isinstance(core, ast.Call) and call_name(core).startswith("argcheck.") and core.args:
+            core = core.args[0]
+        src = {core.id} & formals if isinstance(core, ast.Name) else set()
+        if isinstance(core, ast.Name) and core.id not in formals:
+            src = set(rd.derives(core).params()) & formals if all(d.kind == "assign" and isinstance(d.value, ast.Name) for d in rd.defs_of(core)) else set()
+        out.append((t, v, src))
+    return out
+
+
+def g44_init_stores_own_formal(pkg: Package, funcs: Iterable[FuncInfo], col: Collector, clause="S0"):
+    """A constructor that keeps a configuration value under the NAME of one of its formals (`self.max_freq_mask = ...` next to a formal
+    `max_freq_mask`) fills it from that formal: a value that is ANOTHER formal (the neighbouring line's, after a copy and paste; also
+    behind a validating argcheck call) leaves the module configured with a sibling's number - invisible while the two are given the same
+    value. Values that are not bare formals (constants, buffers, attributes of a parameter object) are left alone."""
+    from sa.astutil import u
+    n_sites = 0
+    for ctx in funcs:
+        where = f"{ctx.module.relname}::{ctx.qualname}"
+        for t, v, src in init_copies_of_other_formals(ctx):
+            n_sites += 1
+            bad = bool(src) and t.attr not in src
+            col.ob("G44", clause, f"{where}::self.{t.attr}<-formal({t.attr})", not bad,
+                   f"`self.{t.attr} = {u(v)[:60]}` is filled from the formal(s) {sorted(src)}, not from `{t.attr}`: the module keeps a sibling's "
+                   f"configuration value under this name", ctx.module.relname, t.lineno, sample=u(v)[:80], nontrivial=False)
+    col.count("g44_init_store_sites", n_sites)
+    return n_sites
